@@ -251,27 +251,32 @@ def firstWildcardPos : Str → Option Nat
   | [] => none
   | c :: cs => if isGlobChar c then some 0 else (firstWildcardPos cs).map (· + 1)
 
-/-- `gix_glob::parse::pattern(pat, may_alter = true)` -/
-def globParse (pat : Str) : Option Pattern :=
-  if pat = [] then none else
-  let neg := pat.head? = some '!'
-  let pat :=
-    if neg then pat.tail
-    else if pat.head? = some '\\' ∧ (pat.tail.head? = some '!' ∨ pat.tail.head? = some '#') then pat.tail
-    else pat
-  if pat.all isAsciiWhitespace then none else
+/-- `gix_glob::parse::pattern`, first step (`may_alter = true`): drop a leading `!` (negation)
+or the backslash of a leading `\!` / `\#` -/
+def stripBang (pat : Str) : Str :=
+  if pat.head? = some '!' then pat.tail
+  else if pat.head? = some '\\' ∧ (pat.tail.head? = some '!' ∨ pat.tail.head? = some '#') then pat.tail
+  else pat
+
+/-- `gix_glob::parse::pattern`, the flags computed from the text after `stripBang` -/
+def globFlags (neg : Bool) (pat : Str) : Pattern :=
   let abs := pat.head? = some '/'
   let pat := if abs then pat.tail else pat
   let dir := pat.getLast? = some '/'
   let pat := if dir then pat.dropLast else pat
-  some {
-    text := pat
+  { text := pat
     negative := neg
     absolute := abs
     mustBeDir := dir
     noSubDir := !pat.contains '/'
     endsWith := pat.head? = some '*' ∧ firstWildcardPos pat.tail = none
     firstWild := firstWildcardPos pat }
+
+/-- `gix_glob::parse::pattern(pat, may_alter = true)` -/
+def globParse (pat : Str) : Option Pattern :=
+  if pat = [] then none
+  else if (stripBang pat).all isAsciiWhitespace then none
+  else some (globFlags (pat.head? = some '!') (stripBang pat))
 
 /-- loop of `gix_ignore::parse::truncate_non_escaped_trailing_spaces`: position of the trailing
 run of unescaped spaces; outer `none` = "a lone backslash ends the line: keep everything" -/
